@@ -53,6 +53,11 @@ ZOO_SCALARS = [
     "'\\ud83d\\ude00'", "'\\x7f'", "'\\x80'", "'\\ufeff'", "'\\u2028'", "'1'", "'True'", "'None'", "'nan'",
     "b'a'", "b''", "b'abc'", "b'\\x00'", "b'\\xff\\xfe'", "b'\\x80abc'", "b'1'",
     "'x'*300", "b'y'*300",
+    # a lone surrogate next to characters that entered Unicode in 12.0 .. 16.0: whether repr() escapes them
+    # depends on the Unicode database of the interpreter that prints (3.7: 11.0, 3.8: 12.1, 3.9/3.10: 13.0,
+    # 3.11: 14.0, 3.12: 15.0, 3.13: 15.1/16.0)
+    "'\\ud800\\U0001fa70'", "'\\udc80\\U0001fad0'", "'\\U0001fae0\\udfff'", "'\\ud800 \\U0001fae8 \\u0cf3'", "'\\udc00\\U0001fae9'",
+    "'caf\\xe9 \\udc80.txt'", "'\\U0001fad0'", "'\\U0001fae9 \\u1c89'",
 ]
 ZOO_SCALARS = [s if s != "complex_neg" else "-(0.0+1j)" for s in ZOO_SCALARS]
 
@@ -144,7 +149,7 @@ BINOPS = ["+", "-", "*", "/", "//", "%", "**", "<<", ">>", "&", "|", "^", "@"]
 CMPOPS = ["<", ">", "==", "!=", "<=", ">=", "is", "is not", "in", "not in"]
 DOCSTRINGS = [
     "'doc'", "'''multi\nline'''", "'\\xe9 doc'", "'\\U0001f600'", "'\\udc80 lone'", "''", "'a\\x00b'",
-    "'''" + "d" * 300 + "'''", "'\\u20ac'", "'doc' 'joined'",
+    "'''" + "d" * 300 + "'''", "'\\u20ac'", "'doc' 'joined'", "'\\udc80 \\U0001fad0 \\U0001fae8'", "'caf\\xe9 \\ud800'",
 ]
 
 
